@@ -68,9 +68,19 @@ pub fn run(tier: &str, seed: u64, outdir: &str, extra: &[String]) {
                                 }
                             }
                         };
-                        let icc = if subset & 1 != 0 { let n = len_of(0, &mut rng); rng.bytes(n) } else { vec![] };
-                        let exif = if subset & 2 != 0 { let n = len_of(1, &mut rng); rng.bytes(n) } else { vec![] };
-                        let xmp = if subset & 4 != 0 { let n = len_of(2, &mut rng); rng.bytes(n) } else { vec![] };
+                        // payloads: random bytes, or (one time in three) bytes behind one of the signatures real metadata starts with,
+                        // or exactly such a signature -- the container must carry them unchanged
+                        const SIGS: [&[u8]; 7] = [b"Exif\0\0", b"II*\0", b"MM\0*", b"<?xpacket begin=", b"<x:xmpmeta", b"\0\0\x02\x0cacsp", b"http://ns.adobe.com/xap/1.0/\0"];
+                        let mut realistic = |n: usize, rng: &mut Rng| -> Vec<u8> {
+                            match rng.below(6) {
+                                0 => { let mut v = rng.pick(&SIGS).to_vec(); v.extend(rng.bytes(n)); v }
+                                1 => rng.pick(&SIGS).to_vec(),
+                                _ => rng.bytes(n),
+                            }
+                        };
+                        let icc = if subset & 1 != 0 { let n = len_of(0, &mut rng); realistic(n, &mut rng) } else { vec![] };
+                        let exif = if subset & 2 != 0 { let n = len_of(1, &mut rng); realistic(n, &mut rng) } else { vec![] };
+                        let xmp = if subset & 4 != 0 { let n = len_of(2, &mut rng); realistic(n, &mut rng) } else { vec![] };
                         let (w, h) = (rng.range(1, 9) as u32, rng.range(1, 9) as u32);
                         let style = rng.below(STYLES.len() as u64) as usize;
                         let data = gen_pixels(style, &mut rng, ct, w, h);
